@@ -10,7 +10,7 @@ LEAN_MODULES = ["Properties.C08Lib2"]
 THEOREMS = [NS + t for t in [
     "C08Lib2_composition", "C08Lib2_refines", "C08Lib2_tracks_exactly_live_members", "C08Lib2_membership_rows",
     "C08Lib2_frame_track_calls", "C08Lib2_frame", "C08Lib2_remove_track_erases", "C08Lib2_noops",
-    "C08Lib2_add_requires_live_track"]]
+    "C08Lib2_add_requires_live_track", "C08Lib2_removed_crate_gone"]]
 ASSUMPTIONS = [
     "2.x composite (C08): as C11_lib2; entries of other databases are written by the harness through "
     "playlist_entity_table::add_back with a synthetic uuid (what other software sharing the library does)",
